@@ -248,7 +248,14 @@ func mkCase(in c03In, idx int) Case {
 		}
 		rs[i] = fmt.Sprintf("run %s %s", Z(int64(r.Code)), H(b))
 	}
-	outCoq := fmt.Sprintf("{| k_kind := %d; k_runs := %s |}", kindOf(in.Cmd), CoqList(rs))
+	kind, kn := kindOf(in.Cmd), 0
+	for i := 0; i+1 < len(in.Args); i++ {
+		if in.Cmd == "spark" && in.Args[i] == "--cols" { // spark trims to the last n columns at every refresh
+			fmt.Sscan(in.Args[i+1], &kn)
+			kind = 5
+		}
+	}
+	outCoq := fmt.Sprintf("{| k_kind := %d; k_n := %d; k_runs := %s |}", kind, kn, CoqList(rs))
 	tags := []string{"cmd=" + in.Cmd, fmt.Sprintf("files=%d", len(in.Files)), fmt.Sprintf("variants=%d", len(in.Variants))}
 	for _, f := range in.Files {
 		if f.Gzip {
@@ -286,7 +293,8 @@ func mkCase(in c03In, idx int) Case {
 		Nontrivial: total > 3 && len(in.Variants) >= 4, Tags: pipe.Dedup(tags)}
 }
 
-var keyAlpha = []string{"a", "b", "cc", "key,with,commas", "say \"hi\"", " lead", "é", "x-y", "0", "10", "9", "tab\tin"}
+var keyAlpha = []string{"a", "b", "cc", "key,with,commas", "say \"hi\"", " lead", "é", "x-y", "0", "10", "9", "tab\tin",
+	"--verbose", "-", "@admin", "=1+1", "+1 (555) 0100", "-5", "'quoted", "\tlead-tab"}
 
 func genIn(r *Rng) c03In {
 	cmd := Pick(r, []string{"histo", "histo", "tabulate", "heatmap", "spark", "bargraph", "analyze", "reduce"})
@@ -306,6 +314,11 @@ func genIn(r *Rng) c03In {
 		} else {
 			in.Extract = []pipe.KPiece{{Kind: "group", Idx: 1}, {Kind: "lit", Text: "\x00"}, {Kind: "group", Idx: 2}, {Kind: "lit", Text: "\x00"}, {Kind: "group", Idx: 3}}
 		}
+	}
+	if cmd == "spark" && r.Bool() {
+		in.Args = []string{"--cols", fmt.Sprint(1 + r.Intn(4))} // fewer than the 12 generated column keys: every refresh trims
+	}
+	switch cmd {
 	case "analyze":
 		in.Extract = []pipe.KPiece{{Kind: "group", Idx: 3}}
 		in.Args = Pick(r, [][]string{nil, {"-x"}, {"-x", "--reverse"}, {"--reverse"}, {"-x", "--reverse", "-q", "25", "-q", "99.5"}})
@@ -316,7 +329,7 @@ func genIn(r *Rng) c03In {
 		in.Args = []string{"-g", "{1}", "-g", "{2}", "-a", "total={sumi {.} {3}}", "-a", "n={sumi {.} 1}"}
 	}
 	nf := 1 + r.Intn(4)
-	if (cmd == "analyze" || cmd == "reduce") && r.Bool() {
+	if (cmd == "analyze" || cmd == "reduce" || cmd == "spark") && r.Bool() {
 		nf = 1
 	}
 	incs := []string{"1", "2", "-3", "0", "7", "x", "+5", "40", "1", "2", "5",
@@ -353,7 +366,7 @@ func genIn(r *Rng) c03In {
 				b = append(b, '\n')
 			}
 		}
-		in.Files = append(in.Files, c03File{Name: fmt.Sprintf("log%d.txt", i), Content: hex.EncodeToString(b), Gzip: r.Chance(1, 5) && !(nf == 1 && (cmd == "analyze" || cmd == "reduce"))})
+		in.Files = append(in.Files, c03File{Name: fmt.Sprintf("log%d.txt", i), Content: hex.EncodeToString(b), Gzip: r.Chance(1, 5) && !(nf == 1 && (cmd == "analyze" || cmd == "reduce" || cmd == "spark"))})
 	}
 	// make sure every file but the last ends with a newline so that re-splitting preserves the lines
 	for i := range in.Files {
@@ -387,7 +400,7 @@ func genIn(r *Rng) c03In {
 		case 1:
 			// order-sensitive commands: the same bytes on standard input in bursts, so that the 100 ms
 			// refresh computes intermediate results between batches (the final result must not depend on it)
-			if (cmd == "analyze" || cmd == "reduce") && len(in.Files) == 1 && !in.Files[0].Gzip && r.Chance(1, 2) {
+			if (cmd == "analyze" || cmd == "reduce" || cmd == "spark") && len(in.Files) == 1 && !in.Files[0].Gzip && r.Chance(1, 2) {
 				v.Stdin, v.StdinPauseMs, v.StdinBursts = true, 160, 3
 			}
 		}
@@ -434,7 +447,29 @@ func burstIn(cmd string, r *Rng) c03In {
 		b = append(b, []byte(fmt.Sprintf("%s|%s|%d\n", Pick(r, []string{"", "a", "b"}), Pick(r, []string{"x", "y"}), vals[i%len(vals)]+r.Intn(3)))...)
 	}
 	in := c03In{Cmd: cmd, Regex: `^([^|]*)\|([^|]*)\|([^|]*)$`, Files: []c03File{{Name: "in.txt", Content: hex.EncodeToString(b)}}}
-	if cmd == "analyze" {
+	if cmd == "spark" {
+		// columns t1..t6 appear over time, rows rA..rC; --cols 2 keeps the last two columns: every refresh between
+		// bursts trims cells (and rows left empty), later bursts sample the same rows and trimmed columns again
+		// (all lines have 8 bytes, 12 lines per burst, so the bursts are cut exactly here). The last line of a
+		// burst creates a row whose only cell is in an early-sorting column - the refresh trims the cell and
+		// deletes the row - and the first line of the next burst samples that same row again.
+		b = b[:0]
+		for burst := 0; burst < 3; burst++ {
+			for i := 0; i < 12; i++ {
+				line := fmt.Sprintf("t%d|r%c|%d\n", 5+burst+r.Intn(3), 'A'+byte(r.Intn(3)), 1+r.Intn(4))
+				if i == 11 && burst < 2 {
+					line = fmt.Sprintf("t%d|r%c|%d\n", 1+burst, 'Y'+byte(burst), 3+burst)
+				}
+				if i == 0 && burst > 0 {
+					line = fmt.Sprintf("t9|r%c|%d\n", 'Y'+byte(burst-1), 5-burst)
+				}
+				b = append(b, line...)
+			}
+		}
+		in.Files[0].Content = hex.EncodeToString(b)
+		in.Extract = []pipe.KPiece{{Kind: "group", Idx: 1}, {Kind: "lit", Text: "\x00"}, {Kind: "group", Idx: 2}, {Kind: "lit", Text: "\x00"}, {Kind: "group", Idx: 3}}
+		in.Args = []string{"--cols", "2"}
+	} else if cmd == "analyze" {
 		in.Extract = []pipe.KPiece{{Kind: "group", Idx: 3}}
 		in.Args = []string{"-x", "--reverse", "-q", "10", "-q", "50", "-q", "90"}
 	} else {
@@ -445,6 +480,14 @@ func burstIn(cmd string, r *Rng) c03In {
 		{Workers: 1, Batch: 1000, Buffer: 1, Readers: 1, Gomaxprocs: 4, Stdin: true, StdinPauseMs: 160, StdinBursts: 3},
 		{Workers: 1, Batch: 2, Buffer: 1, Readers: 1, Gomaxprocs: 2, Stdin: true, StdinPauseMs: 130, StdinBursts: 5},
 		{Workers: 1, Batch: 1, Buffer: 4, Readers: 1, Gomaxprocs: 16}}
+	if cmd == "spark" {
+		// batches must end where the bursts end (a partly filled batch waits for the 250 ms flush): one line per
+		// batch, and twelve lines per batch
+		in.Variants = []variant{{Workers: 1, Batch: 1000, Buffer: 1, Readers: 1, Gomaxprocs: 1},
+			{Workers: 1, Batch: 1, Buffer: 1, Readers: 1, Gomaxprocs: 4, Stdin: true, StdinPauseMs: 220, StdinBursts: 3},
+			{Workers: 1, Batch: 12, Buffer: 1, Readers: 1, Gomaxprocs: 2, Stdin: true, StdinPauseMs: 160, StdinBursts: 3},
+			{Workers: 2, Batch: 1, Buffer: 4, Readers: 1, Gomaxprocs: 16}}
+	}
 	return in
 }
 
@@ -464,6 +507,9 @@ func main() {
 			}
 			if n > 4 {
 				ins[2], ins[3] = burstIn("analyze", r), burstIn("reduce", r)
+			}
+			if n > 5 {
+				ins[4] = burstIn("spark", r)
 			}
 			out := make([]Case, n)
 			var wg sync.WaitGroup
